@@ -143,11 +143,45 @@ class FreeSpaceCSRCalc(CalcImpedanceBase):
         return [('delta', cx.v('delta') == cx.a('f_max') / cx.a('f_rev') / z3.ToReal(cx.a('n') - 1))]
 
 
+def free_consts(t, acc=None):
+    """names of the uninterpreted constants a term depends on"""
+    acc = set() if acc is None else acc
+    seen, todo = set(), [t]
+    while todo:
+        e = todo.pop()
+        if e.get_id() in seen:
+            continue
+        seen.add(e.get_id())
+        if z3.is_const(e) and e.decl().kind() == z3.Z3_OP_UNINTERPRETED:
+            acc.add(e.decl().name())
+        todo.extend(e.children())
+    return acc
+
+
+RW_PREF = z3.Function('RW_PREF', *([z3.RealSort()] * 6))
+
+
 class ResistiveWallCalc(CalcImpedanceBase):
     name = 'vfps::ResistiveWall::__calcImpedance'
     tu = 'src/Z/ResistiveWall.cpp'
     params = ['n', 'f0', 'f_max', 'L', 's', 'xi', 'b']
     uf_mul = 'sign'
+
+    def pref(self, cx):
+        """RW_PREF(f0,L,s,xi,b) names the frequency-independent prefactor the code computes from exactly these
+        parameters (definitional: introduced where Z1 is declared, after checking what its term depends on)"""
+        return RW_PREF(cx.a('f0'), cx.a('L'), cx.a('s'), cx.a('xi'), cx.a('b'))
+
+    @property
+    def domain_after(self):
+        def define(cx):
+            z1 = cx.val('Z1')
+            deps = free_consts(z1.fields['re'].t) | free_consts(z1.fields['im'].t)
+            allowed = {'arg:f0', 'arg:L', 'arg:s', 'arg:xi', 'arg:b', 'const:PI'}
+            if not deps <= allowed:
+                raise ExtractionError(f'ResistiveWall prefactor Z1 depends on {sorted(deps - allowed)}: the definitional symbol RW_PREF(f0,L,s,xi,b) does not cover that')
+            return z1.fields['re'].t == self.pref(cx)
+        return {'Z1': define}
 
     def domain(self, cx):
         # what the factory guards before building this model
@@ -158,11 +192,7 @@ class ResistiveWallCalc(CalcImpedanceBase):
         """square-root growth with frequency, resistive and inductive part of equal size (1 - j)"""
         delta = cx.a('f_max') / cx.a('f0') / (z3.ToReal(cx.a('n')) - 1)
         w = SQRT(models.FMUL(z3.ToReal(k), cx.v('delta') if self._has_delta(cx) else delta))
-        try:
-            z1 = cx.val('Z1')
-        except ExtractionError:
-            return None
-        return (models.FMUL(z1.fields['re'].t, w), models.FMUL(z1.fields['im'].t, w))
+        return (models.FMUL(self.pref(cx), w), models.FMUL(-self.pref(cx), w))
 
     @staticmethod
     def _has_delta(cx):
@@ -171,10 +201,10 @@ class ResistiveWallCalc(CalcImpedanceBase):
     def extra_inv(self, cx):
         z1 = cx.val('Z1')
         return [('delta', cx.v('delta') == cx.a('f_max') / cx.a('f0') / (z3.ToReal(cx.a('n')) - 1)),
-                ('z1', And(z1.fields['re'].t >= 0, z1.fields['im'].t == -z1.fields['re'].t))]
+                ('z1', And(z1.fields['re'].t >= 0, z1.fields['im'].t == -z1.fields['re'].t, z1.fields['re'].t == self.pref(cx)))]
 
     def ensures(self, cx):
-        out = [o for o in CalcImpedanceBase.ensures(self, cx) if o[0] != 'law']
+        out = [o for o in CalcImpedanceBase.ensures(self, cx)]
         return out
 
 
@@ -192,4 +222,460 @@ class ConstImpedanceCalc(CalcImpedanceBase):
         z = cx.arg('Z')
         out = [o for o in CalcImpedanceBase.ensures(self, cx)]
         out.append(('const', {'C16'}, Implies(And(k >= 0, k < n / 2), And(self.sel(cx, k, 're') == z.fields['re'].t, self.sel(cx, k, 'im') == z.fields['im'].t))))
+        return out
+
+
+# =========================================================================== Impedance constructors (U20)
+M_IMP_RULER = '_ZN4vfps9ImpedanceC1EONS_5RulerIfEERKSt6vectorISt7complexIfESaIS6_EEDn'
+M_IMP_VEC = '_ZN4vfps9ImpedanceC1ERKSt6vectorISt7complexIfESaIS3_EEfDn'
+M_IMP_ZERO = '_ZN4vfps9ImpedanceC1EmfDn'
+M_IMP_FILE = '_ZN4vfps9ImpedanceC1ENSt7__cxx1112basic_stringIcSt11char_traitsIcESaIcEEEdDn'
+
+
+def imp_copy_posts(cx, src, tags=frozenset({'C16', 'C17'})):
+    """the object holds exactly the samples of `src` (a vector region of the pre-state)"""
+    k = cx.g('k')
+    n = cx.old.len(src)
+    inr = And(k >= 0, k < n)
+    return [('nfreqs', set(tags), cx.f('this._nfreqs', 'u64') == n),
+            ('len', set(tags), cx.len('this._data') == n),
+            ('copy.re', {'C16'}, Implies(inr, cx.sel('this._data', k, 're') == cx.old.sel(src, k, 're'))),
+            ('copy.im', {'C16'}, Implies(inr, cx.sel('this._data', k, 'im') == cx.old.sel(src, k, 'im')))]
+
+
+class ImpedanceCtorRuler(Contract):
+    """Impedance(Ruler&&, const vector&, oclh): the basic constructor every other one delegates to"""
+    name = 'vfps::Impedance::Impedance'
+    tu = 'src/Z/Impedance.cpp'
+    mangled = M_IMP_RULER
+    params = ['axis', 'z', 'oclh']
+    tags = {'C16', 'C17'}
+    ghosts = {'k': 'int'}
+
+    def assigns(self, cx):
+        return [('s', 'this._nfreqs'), ('r', 'this._data'), ('len', 'this._data'), ('s', 'this._axis'), ('s', 'this._oclh')]
+
+    def init__axis(self, ex, st, e):
+        # Ruler(const Ruler&) copies the axis (a frequency ruler is not read by any unit under contract)
+        st.scal['this._axis'] = ex.args0['axis']
+
+    def init__oclh(self, ex, st, e):
+        st.scal['this._oclh'] = Opaque('oclh')
+
+    def ensures(self, cx):
+        return imp_copy_posts(cx, cx.arg('z').name)
+
+
+class RulerTemp:
+    """call-site binding for the frequency ruler temporaries: Ruler<frequency_t>(steps,0,f_max,{{"Hertz",1}}).
+    The frequency axis of an impedance is not read by any unit under contract; only its step count is kept."""
+
+    def __call__(self, ex, n, st, objn, argn, this_override=None):
+        steps = ex.ev(argn[0], st)
+        st.scal[this_override + '._steps'] = IntV(ex.wrap(steps.t, parse_type_str('unsigned int')), parse_type_str('unsigned int'))
+        return ObjRef(this_override, 'vfps::Ruler<float>')
+
+
+def imp_ctor_calls(k_of=lambda cx: cx.ghost_of('k')):
+    return {'ctor:vfps::Ruler<float>': RulerTemp(),
+            'ctor:vfps::Impedance/3': None}
+
+
+class ImpedanceCtorVec(Contract):
+    """Impedance(const vector& z, f_max, oclh) -> Impedance(Ruler(z.size(),0,f_max), z, oclh)"""
+    name = 'vfps::Impedance::Impedance'
+    tu = 'src/Z/Impedance.cpp'
+    mangled = M_IMP_VEC
+    params = ['z', 'f_max', 'oclh']
+    tags = {'C16', 'C17'}
+    ghosts = {'k': 'int'}
+
+    def assigns(self, cx):
+        return [('s', 'this._nfreqs'), ('r', 'this._data'), ('len', 'this._data'), ('s', 'this._axis'), ('s', 'this._oclh')]
+
+    @property
+    def calls(self):
+        return {'ctor:vfps::Ruler<float>': RulerTemp(),
+                'ctor:vfps::Impedance': Use(ImpedanceCtorRuler(), inst=lambda cx: [{'k': cx.ghost_of('k')}])}
+
+    def ensures(self, cx):
+        return imp_copy_posts(cx, cx.arg('z').name)
+
+
+class ImpedanceCtorZero(Contract):
+    """Impedance(nfreqs, f_max, oclh): nfreqs zero samples"""
+    name = 'vfps::Impedance::Impedance'
+    tu = 'src/Z/Impedance.cpp'
+    mangled = M_IMP_ZERO
+    params = ['nfreqs', 'f_max', 'oclh']
+    tags = {'C16', 'C17'}
+    ghosts = {'k': 'int'}
+
+    def assigns(self, cx):
+        return [('s', 'this._nfreqs'), ('r', 'this._data'), ('len', 'this._data'), ('s', 'this._axis'), ('s', 'this._oclh')]
+
+    calls = ImpedanceCtorVec.calls
+
+    def ensures(self, cx):
+        k, n = cx.g('k'), cx.a('nfreqs')
+        inr = And(k >= 0, k < n)
+        return [('nfreqs', {'C16', 'C17'}, cx.f('this._nfreqs', 'u64') == n),
+                ('len', {'C16', 'C17'}, cx.len('this._data') == n),
+                ('zero', {'C16'}, Implies(inr, And(cx.sel('this._data', k, 're') == 0, cx.sel('this._data', k, 'im') == 0)))]
+
+
+# =========================================================================== constructors of the impedance models
+def calc_use(calc_cls):
+    """call-site view of a __calcImpedance contract: the returned vector is a fresh region"""
+    class CalcUse(calc_cls):
+        def rv(self, cx):
+            return 'ret:' + calc_cls.__name__
+
+        def result(self, cx):
+            return ObjRef(self.rv(cx), 'std::vector<std::complex<float>>')
+
+        def effect(self, cx):
+            from vf.state import State
+            st = cx.st
+            st.havoc_region(self.rv(cx))
+            st.length[self.rv(cx)] = State.fresh(f'len({self.rv(cx)})', z3.IntSort())
+            st.assume(st.length[self.rv(cx)] >= 0)
+    CalcUse.__name__ = calc_cls.__name__ + 'Use'
+    return CalcUse
+
+
+def model_ctor(calc_cls, qualname, tu, ctor_params, nparams=None):
+    """contract of a model class constructor  `: Impedance(__calcImpedance(args...), f_max, oclh)`:
+    the object holds exactly what __calcImpedance returns for the SAME arguments — so it inherits the shape,
+    passivity and value posts of the calculation, restated on this._data"""
+    class Ctor(calc_cls):
+        name = qualname
+        params = ctor_params
+        loops = {}
+
+        def sel(self, cx, k, leaf):
+            return cx.sel('this._data', k, leaf)
+
+        def assigns(self, cx):
+            return [('s', 'this._nfreqs'), ('r', 'this._data'), ('len', 'this._data'), ('s', 'this._axis'), ('s', 'this._oclh')]
+
+        @property
+        def calls(self):
+            inst = lambda cx: [{'k': cx.ghost_of('k')}, {'k': I(0)}]
+            return {calc_cls.name: Use(calc_use(calc_cls)(), inst=inst),
+                    'ctor:vfps::Impedance': Use(ImpedanceCtorVec(), inst=inst),
+                    'ctor:vfps::ConstImpedance': Use(ConstImpedanceCtor(), inst=inst) if qualname.endswith('CollimatorImpedance') else None}
+
+        def ensures(self, cx):
+            n, k = cx.a(self.nname), cx.g('k')
+            out = []
+            for lab, tags, f in calc_cls.ensures(self, cx):
+                if lab == 'returns_rv':
+                    continue
+                if lab == 'size':
+                    f = And(cx.len('this._data') == n, cx.f('this._nfreqs', 'u64') == n)
+                out.append((lab, tags, f))
+            return out
+    Ctor.tu = tu
+    Ctor.nparams = nparams or len(ctor_params)
+    Ctor.__name__ = calc_cls.__name__.replace('Calc', '') + 'Ctor'
+    return Ctor
+
+
+FreeSpaceCSRCtor = model_ctor(FreeSpaceCSRCalc, 'vfps::FreeSpaceCSR::FreeSpaceCSR', 'src/Z/FreeSpaceCSR.cpp', ['n', 'f_rev', 'f_max', 'oclh'])
+ResistiveWallCtor = model_ctor(ResistiveWallCalc, 'vfps::ResistiveWall::ResistiveWall', 'src/Z/ResistiveWall.cpp', ['n', 'f0', 'f_max', 'L', 's', 'xi', 'b', 'oclh'])
+ConstImpedanceCtor = model_ctor(ConstImpedanceCalc, 'vfps::ConstImpedance::ConstImpedance', 'src/Z/ConstImpedance.cpp', ['n', 'f_max', 'Z', 'oclh'])
+
+
+LOG = models.uf('log')
+
+
+class CollimatorCtor(Contract):
+    """CollimatorImpedance(n, f_max, outer, inner): a positive constant resistance Z0/pi * ln(outer/inner) on the
+    lower half (C16), built through ConstImpedance"""
+    name = 'vfps::CollimatorImpedance::CollimatorImpedance'
+    tu = 'src/Z/CollimatorImpedance.cpp'
+    params = ['n', 'f_max', 'outer', 'inner', 'oclh']
+    tags = {'C16', 'C17'}
+    ghosts = {'k': 'int'}
+
+    def requires(self, cx):
+        # what the factory guards: 0 < inner < outer
+        return [('n', And(cx.a('n') >= 2, cx.a('n') < 2 ** 32)),
+                ('radii', And(cx.a('inner') > 0, cx.a('outer') > cx.a('inner'))),
+                ('pi', models.uf_const('PI') > 3)]
+
+    def assigns(self, cx):
+        return [('s', 'this._nfreqs'), ('r', 'this._data'), ('len', 'this._data'), ('s', 'this._axis'), ('s', 'this._oclh')]
+
+    @property
+    def calls(self):
+        return {'ctor:vfps::ConstImpedance': Use(ConstImpedanceCtor(), inst=lambda cx: [{'k': cx.ghost_of('k')}])}
+
+    def resistance(self, cx):
+        return Rq(376730313461, 10 ** 9) / models.uf_const('PI') * LOG(cx.a('outer') / cx.a('inner'))
+
+    def ensures(self, cx):
+        n, k = cx.a('n'), cx.g('k')
+        re, im = cx.sel('this._data', k, 're'), cx.sel('this._data', k, 'im')
+        return [('size', {'C16', 'C17'}, And(cx.len('this._data') == n, cx.f('this._nfreqs', 'u64') == n)),
+                ('upper_zero', {'C16'}, Implies(And(k > n / 2, k < n), And(re == 0, im == 0))),
+                ('passive', {'C16', 'C07'}, Implies(And(k >= 0, k < n), re >= 0)),
+                ('constant_resistance', {'C16'}, Implies(And(k >= 0, k < n / 2), And(re == self.resistance(cx), im == 0))),
+                ('positive', {'C16'}, Implies(And(k >= 0, k < n / 2), re > 0))]
+
+
+class ParallelPlatesCalc(CalcImpedanceBase):
+    """ParallelPlatesCSR::__calcImpedance: shape and passivity.  Re(zinc) = Ai'(u)^2 + u*Ai(u)^2 >= 0 for u >= 0 is pure
+    sign algebra over the uninterpreted Airy functions; the prefactor is a product of non-negative terms."""
+    name = 'vfps::ParallelPlatesCSR::__calcImpedance'
+    tu = 'src/Z/ParallelPlatesCSR.cpp'
+    params = ['nfreqs', 'f0', 'f_max', 'g']
+    nname = 'nfreqs'
+    uf_mul = 'sign'
+
+    def domain(self, cx):
+        # factory guard: gap > 0; frequencies positive; the number of waveguide modes 2*f*g/c fits the mode counter
+        return [('guards', And(cx.a('g') > 0, cx.a('f0') > 0, cx.a('f_max') > 0, models.uf_const('PI') > 3))]
+
+    # the number of waveguide modes 2*f*gap/c (a double) is converted to uint32_t: representable for every physical
+    # configuration (gap*f_max < 3e17 m/s); stated as a domain assumption on the converted value, listed in evidence
+    domain_values = {'maxp': (lambda cx, t: And(t >= 0, t < 2 ** 31), 'number of waveguide modes 2*f*gap/c below 2^31 (VacuumGap*f_max < 3e17 m/s)')}
+
+    def ensures(self, cx):
+        n, k = cx.a(self.nname), cx.g('k')
+        return [o for o in CalcImpedanceBase.ensures(self, cx)] + \
+               [('dc_zero', {'C16'}, And(self.sel(cx, 0, 're') == 0, self.sel(cx, 0, 'im') == 0))]
+
+    def _inv_i(self, cx):
+        n, i, k = cx.a(self.nname), cx.v('i'), cx.g('k')
+        return [('range', And(i >= 1, i <= n / 2 + 1)),
+                ('len', cx.st.len_of(self.rv(cx)) == n),
+                ('passive', Implies(And(k >= 0, k < n), self.sel(cx, k, 're') >= 0)),
+                ('todo', Implies(And(k >= i, k < n), And(self.sel(cx, k, 're') == 0, self.sel(cx, k, 'im') == 0))),
+                ('dc', And(self.sel(cx, 0, 're') == 0, self.sel(cx, 0, 'im') == 0)),
+                ('consts', And(cx.v('delta') >= 0, cx.v('r_bend') > 0))]
+
+    def _inv_p(self, cx):
+        Z = cx.val('Z')
+        return [('re', Z.fields['re'].t >= 0), ('p', And(cx.v('p') >= 1, cx.v('p') <= cx.v('maxp') + 3, cx.v('maxp') < 2 ** 31)), ('b', cx.v('b') >= 0), ('m', cx.v('m') >= 0), ('n', cx.v('n') >= 0)]
+
+    @property
+    def loops(self):
+        a, b = LoopSpec(inv=self._inv_i), LoopSpec(inv=self._inv_p)
+        a.split = split_ghost('i', 'k')
+        return {'i#0': a, 'p#0': b}
+
+
+ParallelPlatesCtor = model_ctor(ParallelPlatesCalc, 'vfps::ParallelPlatesCSR::ParallelPlatesCSR', 'src/Z/ParallelPlatesCSR.cpp', ['nfreqs', 'f0', 'f_max', 'g', 'oclh'])
+
+
+# =========================================================================== U21 the factory
+RS_ = z3.RealSort()
+IS_ = z3.IntSort()
+
+
+def model_val(name, nargs):
+    """MODEL(args..., k, leaf): sample k of the impedance the model class constructor builds for these arguments.
+    Definitional: the constructor is a deterministic function of its arguments (its own contract is verified from
+    parameters and literals only); the symbol lets the factory post say WHICH model with WHICH arguments was added."""
+    return z3.Function('Z_' + name, *([RS_] * nargs + [IS_, IS_, RS_]))
+
+
+Z_PP, Z_FS, Z_RW, Z_CO = model_val('ParallelPlates', 4), model_val('FreeSpace', 3), model_val('ResistiveWall', 7), model_val('Collimator', 4)
+Z_FILE = z3.Function('Z_File', IS_, IS_, RS_)          # contents of the impedance file (arbitrary)
+LEAF = {'re': I(0), 'im': I(1)}
+
+
+class ModelTemp(Use):
+    """temporary of a model class inside the factory: the constructor contract (preconditions proved, shape/law posts
+    assumed) plus the definitional value symbol"""
+
+    def __init__(self, contract, fn, argnames):
+        Use.__init__(self, contract, inst=lambda cx: [{'k': cx.ghost_of('k')}])
+        self.fn, self.argnames = fn, argnames
+
+    def __call__(self, ex, n, st, objn, argn, this_override=None):
+        r = Use.__call__(self, ex, n, st, objn, argn, this_override=this_override)
+        cx = Ctx(ex, st, st, ex.args0)
+        k = ex.unit_ghosts['k']
+        vals = []
+        for a in argn[:len(self.argnames)]:
+            v = ex.ev(a, st)
+            vals.append(z3.ToReal(v.t) if isinstance(v, IntV) else v.t)
+        for lf in ('re', 'im'):
+            st.assume(z3.Select(st.array(this_override + '._data', lf, parse_type_str('float')), k) == self.fn(*(vals + [k, LEAF[lf]])))
+        return ObjRef(this_override, self.c.name.rsplit('::', 1)[0])
+
+
+class FileTemp:
+    """Impedance(impedance_file, fmax): whatever the file holds — any number of samples (readData is not under
+    contract: iostream parsing); the object is well formed (_nfreqs == _data.size(), by the delegating constructors)"""
+
+    def __call__(self, ex, n, st, objn, argn, this_override=None):
+        from vf.state import State
+        t = this_override
+        ln = z3.Int('arg:impedance_file_samples')       # an input of the factory: how many samples the file holds
+        st.assume(ln >= 0)
+        st.length[t + '._data'] = ln
+        st.scal[t + '._nfreqs'] = IntV(ln, parse_type_str('unsigned long'))
+        k = z3.Int('k!file')
+        for lf in ('re', 'im'):
+            st.arr[(t + '._data', lf)] = z3.Lambda([k], Z_FILE(k, LEAF[lf]))
+            st.leafct[(t + '._data', lf)] = parse_type_str('float')
+        return ObjRef(t, 'vfps::Impedance')
+
+
+class MakeUniqueImpedance(Use):
+    """std::make_unique<Impedance>(nfreqs, fmax, oclh): heap object built by the zero constructor"""
+
+    def __init__(self):
+        Use.__init__(self, ImpedanceCtorZero(), inst=lambda cx: [{'k': cx.ghost_of('k')}])
+
+    def __call__(self, ex, n, st, objn, argn, this_override=None):
+        Use.__call__(self, ex, n, st, None, argn, this_override='heap:rv')
+        return ObjRef('heap:rv', 'std::unique_ptr<vfps::Impedance>', null=z3.BoolVal(False))
+
+
+class ResetToNull:
+    """rv = nullptr"""
+
+    def __call__(self, ex, n, st, objn, argn, this_override=None):
+        a = ex.ev(argn[0], st)
+        if not (isinstance(a, PtrV) and a.region is None):
+            raise ExtractionError(f'{ex.unit}: assignment to the result pointer from something other than nullptr (line {ex.curline})')
+        d = objn
+        while d.get('kind') in ('ImplicitCastExpr', 'ParenExpr'):
+            d = d['inner'][0]
+        vid = d.get('referencedDecl', {}).get('id')
+        cur = st.env.get(vid)
+        if not isinstance(cur, ObjRef):
+            raise ExtractionError(f'{ex.unit}: operator= on {cur}')
+        st.env[vid] = ObjRef(cur.name, cur.cls, null=z3.BoolVal(True))
+        ex.logw(('v', vid))
+        return VoidV()
+
+
+class StringNonEmpty:
+    """impedance_file != "" : an input of the factory"""
+
+    def __call__(self, ex, n, st, objn, argn, this_override=None):
+        return BoolV(z3.Bool('arg:impedance_file_given'))
+
+
+def _num(v, dflt):
+    if isinstance(v, list) and len(v) == 2:
+        try:
+            return float(v[0]) / float(v[1])
+        except Exception:
+            return dflt
+    if isinstance(v, bool):
+        return 1.0 if v else 0.0
+    if isinstance(v, (int, float)):
+        return float(v)
+    return dflt
+
+
+FACTORY_SWEEP = [['factory', n_, gap_, csr_, s_, 0.0, inner_, file_, 1.0, 2.7e6]
+                 for n_ in (16, 17) for gap_ in (0.032, -0.032, 0.0) for csr_ in (0, 1) for s_ in (0.0, 3.5e7)
+                 for inner_ in (-1.0, 0.005, 0.05) for file_ in (0, 1)]
+
+
+def factory_replay_spec(model):
+    """the refuting model as arguments of the real makeImpedance (sizes and magnitudes brought into a range the real
+    classes can evaluate), followed by the fixed sweep"""
+    m = model or {}
+    gap = _num(m.get('arg:gap'), 0.032)
+    gap = 0.0 if gap == 0 else (0.032 if gap > 0 else -0.032)
+    s_ = 3.5e7 if _num(m.get('arg:s'), 0.0) > 0 else 0.0
+    xi = -2.0 if _num(m.get('arg:xi'), 0.0) < -1 else 0.0
+    inner = _num(m.get('arg:inner_coll_radius'), -1.0)
+    inner = -1.0 if inner <= 0 else (0.005 if (gap != 0 and inner < abs(gap) / 2 or _num(m.get('arg:gap'), 1.0) == 0) and inner < abs(_num(m.get('arg:gap'), 1.0)) / 2 else 0.05)
+    first = ['factory', 16, gap, int(_num(m.get('arg:use_csr'), 0)), s_, xi, inner, int(_num(m.get('arg:impedance_file_given'), 0)), 1.0, 2.7e6]
+    return {'harness': 'ef_replay', 'runs': [first] + FACTORY_SWEEP}
+
+
+class MakeImpedance(Contract):
+    replay = lambda self, o, model, pid: factory_replay_spec(model)
+    name = 'vfps::makeImpedance'
+    tu = 'src/Z/ImpedanceFactory.cpp'
+    params = ['nfreqs', 'oclh', 'fmax', 'R_bend', 'frev', 'gap', 'use_csr', 's', 'xi', 'inner_coll_radius', 'impedance_file']
+    tags = {'C16', 'C17'}
+    ghosts = {'k': 'int'}
+    uf_mul = False
+
+    def requires(self, cx):
+        # documented domain: at least two frequency samples, positive frequencies and bending radius; the mode-count
+        # bound of the parallel-plates model is its own stated domain assumption
+        return [('n', And(cx.a('nfreqs') >= 2, cx.a('nfreqs') < 2 ** 32)),
+                ('freqs', And(cx.a('fmax') > 0, cx.a('frev') > 0, cx.a('R_bend') > 0)),
+                ('pi', models.uf_const('PI') > 3)]
+
+    def assigns(self, cx):
+        return []
+
+    @property
+    def calls(self):
+        inst = lambda cx: [{'k': cx.ghost_of('k')}]
+        return {'make_unique': MakeUniqueImpedance(),
+                'ctor:vfps::ParallelPlatesCSR': ModelTemp(ParallelPlatesCtor(), Z_PP, ['nfreqs', 'f0', 'f_max', 'g']),
+                'ctor:vfps::FreeSpaceCSR': ModelTemp(FreeSpaceCSRCtor(), Z_FS, ['n', 'f_rev', 'f_max']),
+                'ctor:vfps::ResistiveWall': ModelTemp(ResistiveWallCtor(), Z_RW, ['n', 'f0', 'f_max', 'L', 's', 'xi', 'b']),
+                'ctor:vfps::CollimatorImpedance': ModelTemp(CollimatorCtor(), Z_CO, ['n', 'f_max', 'outer', 'inner']),
+                'ctor:vfps::Impedance': FileTemp(),
+                'vfps::Impedance::operator+=': Use(ImpedanceAddAssign(), inst=inst),
+                'operator+=': Use(ImpedanceAddAssign(), inst=inst),
+                'operator!=': StringNonEmpty(),
+                'operator=': ResetToNull(),
+                'printText': lambda ex, n, st, objn, argn, this_override=None: VoidV()}
+
+    # ---- the statement: "the factory returns the sum of the selected contributions (or nothing when none is selected)"
+    def selected(self, cx):
+        a = cx.a
+        gap, radius = a('gap'), If(a('gap') / 2 >= 0, a('gap') / 2, -a('gap') / 2)
+        return {'pp': And(gap != 0, a('use_csr') != 0, gap > 0),
+                'fs': And(gap != 0, a('use_csr') != 0, Not(gap > 0)),
+                'rw': And(gap != 0, a('s') > 0, a('xi') >= -1),
+                'co': And(gap != 0, 0 < a('inner_coll_radius'), a('inner_coll_radius') < radius),
+                'file': z3.Bool('arg:impedance_file_given')}, radius
+
+    def expected(self, cx, k, lf):
+        a = cx.a
+        n = z3.ToReal(a('nfreqs'))
+        sel, radius = self.selected(cx)
+        c = Rq(299792458)
+        f0 = c / (2 * models.uf_const('PI') * a('R_bend'))          # CSR models take the bending-magnet frequency
+        L = LEAF[lf]
+        t = If(sel['pp'], Z_PP(n, f0, a('fmax'), a('gap'), k, L), 0) \
+            + If(sel['fs'], Z_FS(n, f0, a('fmax'), k, L), 0) \
+            + If(sel['rw'], Z_RW(n, a('frev'), a('fmax'), c / a('frev'), a('s'), a('xi'), radius, k, L), 0) \
+            + If(sel['co'], Z_CO(n, a('fmax'), radius, a('inner_coll_radius'), k, L), 0)
+        return t, sel
+
+    def ensures(self, cx):
+        k, n = cx.g('k'), cx.a('nfreqs')
+        sel, _ = self.selected(cx)
+        anysel = Or(*sel.values())
+        r = cx.ret
+        if isinstance(r, PtrV) and r.region is None:
+            # a literal `return nullptr`: allowed exactly when nothing is selected
+            return [('null_iff_nothing_selected', {'C16'}, Not(anysel))]
+        if not isinstance(r, ObjRef):
+            raise ExtractionError(f'makeImpedance: return value {r} is neither the impedance object nor nullptr')
+        isnull = r.null if r.null is not None else z3.BoolVal(False)
+        out = [('null_iff_nothing_selected', {'C16'}, isnull == Not(anysel))]
+        data = r.name + '._data'
+        flen = cx.len('tmp:file._data') if False else None
+        inr = And(Not(isnull), k >= 0, k < n)
+        out.append(('size', {'C16', 'C17'}, Implies(Not(isnull), And(cx.len(data) == n, cx.f(r.name + '._nfreqs', 'u64') == n))))
+        for lf in ('re', 'im'):
+            e, _s = self.expected(cx, k, lf)
+            got = cx.sel(data, k, lf)
+            # the file contribution: its samples are added where it has any (index below its own length)
+            fl = z3.Int('arg:impedance_file_samples')
+            out.append((f'sum_of_selected.{lf}', {'C16'},
+                        Implies(inr, got == e + If(And(sel['file'], k < fl), Z_FILE(k, LEAF[lf]), 0))))
+            out.append((f'sum_without_file.{lf}', {'C16'}, Implies(And(inr, Not(sel['file'])), got == e)))
+        out.append(('passive_without_file', {'C16', 'C07'}, Implies(And(inr, Not(sel['file'])), cx.sel(data, k, 're') >= 0)))
+        out.append(('upper_zero_without_file', {'C16'}, Implies(And(inr, Not(sel['file']), k > n / 2), And(cx.sel(data, k, 're') == 0, cx.sel(data, k, 'im') == 0))))
         return out
